@@ -622,7 +622,7 @@ impl Property for C18 {
                     }
                 }
                 Err(e) => {
-                    let dir = std::path::Path::new(VERIF_ROOT).join("replays");
+                    let dir = out_root().join("replays");
                     let _ = std::fs::create_dir_all(&dir);
                     let path = dir.join(format!("C18-pool-{:016x}.json", case_hash(&w)));
                     let _ = std::fs::write(&path, serde_json::to_string(&serde_json::json!({"property": "C18", "reason": e, "pool_workload": w})).unwrap());
